@@ -291,10 +291,9 @@ def judge_and_handle(ctx, cases, name, kind, parallel):
     return good
 
 
-def replay(ctx):
+def replay(ctx, rec):
     """./check C16 --replay <file>: that one case again through the real regions() and the judge"""
-    blob = json.load(open(ctx.replay))
-    job = dict(blob["case"]["job"], idx=-1, base=[])
+    job = dict(rec["case"]["job"], idx=-1, base=[])
     cases = core.run_jobs("regions_worker", [job], nproc=1)
     good = judge_and_handle(ctx, cases, "replay", "replay", parallel=1)
     print("REPLAY verdict: %s" % ("ok" if (good and not ctx.violations) else
@@ -310,8 +309,6 @@ def run(ctx):
         "inf cells, non-integer values closer than the isclose tolerance and Dask/CuPy backed rasters are outside "
         "the stated domain and not exercised",
     ]
-    if ctx.replay:
-        return replay(ctx)
     rng = random.Random(ctx.seed * 7919 + 16)
     cfgs = mc_configs(ctx.tier)
     # ---- M
@@ -326,19 +323,23 @@ def run(ctx):
             H=H, W=W, VALS={0, 1}, N=n, MUT=mut)), "neg_" + mut, expect="violation")
     ctx.exhaustive = True
 
-    # ---- R: the complete enumerated scope through the real regions()
-    jobs = []
+    # ---- one round of worker processes for everything that runs the real code
+    ejobs = []
     for cfg in cfgs:
-        jobs += enum_jobs(cfg)
-    cases = core.run_jobs("regions_worker", jobs)
+        ejobs += enum_jobs(cfg)
+    tjobs = random_jobs(rng, ctx.pick(400, 4000), 10)
+    allcases = core.run_jobs("regions_worker", ejobs + tjobs)
+    # ---- R: the complete enumerated scope through the real regions()
+    cases = allcases[:len(ejobs)]
     good = judge_and_handle(ctx, cases, "replay_all_rasters", "R", parallel=8)
     ctx.extra["replayed_rasters"] = len(cases)
     for c in good[5:6] + good[300:301]:
         ctx.sample({"kind": "replay", "n": c["n"], "vals": c["vals"], "labels": c["out"]})
+    del good, cases
 
     # ---- T: seeded larger rasters
-    jobs = random_jobs(rng, ctx.pick(400, 4000), 10)
-    cases = core.run_jobs("regions_worker", jobs)
+    cases = allcases[len(ejobs):]
+    del allcases
     good = judge_and_handle(ctx, cases, "seeded_shapes", "T", parallel=8)
     for c in good[:3]:
         ctx.sample({"kind": "seeded", "gen": c["tag"], "n": c["n"], "dtype": c["dtype"], "vals": c["vals"],
